@@ -23,6 +23,18 @@ let () =
     let fb = Wire_flat.flat_of_sexp f in
     show_list (fun q -> show_verdict (Mismatch.mismatch fb (cand_of_sexp q))) (match qs with L l -> l | _ -> failwith "cands")
     | _ -> "!args");
+  (* the fragment of theorem C17_mismatch_iff_valid evaluated on a flat record and candidate rows (design order):
+     nfrag | per candidate (wf_rowsb, no_mismatch, valid_b (code_sem_n fb)) *)
+  register "fragcheck" (function [f; qs] ->
+    let fb = Wire_flat.flat_of_sexp f in
+    let nf = NestProofs.nfrag fb in
+    let sem = NestProofs.code_sem_n fb in
+    show_bool nf ^ " " ^ show_list (fun q ->
+      let rows = list_of_sexp (list_of_sexp cell_of_sexp) q in
+      "(" ^ show_bool (FragmentProofs.wf_rowsb fb rows) ^ " "
+      ^ show_bool (Mismatch.no_mismatch fb (FragmentProofs.cand_of_rows rows)) ^ " "
+      ^ show_bool (Sem.valid_b sem rows) ^ ")") (match qs with L l -> l | _ -> failwith "cands")
+    | _ -> "!args");
   (* run counting of check_sequence on a list of cells for level l *)
   register "counts" (function [l; cells] ->
     show_list show_nat (Mismatch.counts (nat_of_sexp l) (list_of_sexp cell_of_sexp cells)) | _ -> "!args")
